@@ -1150,6 +1150,21 @@ func (w *World) genNestedWeighted(c *EvalCase) {
 		weighted.Replace("clauses", JArr())
 		rules = JArr(miss, weighted)
 	}
+	if r.P(0.25) {
+		// two weighted rules of one segment that bucket differently: the first one's bucket (by key) is just above its
+		// weight, so it does not match; the second buckets by an attribute nobody has (bucket 0) with a tiny weight, so it
+		// matches -- unless it reuses the first rule's bucket
+		first := JObj(KV{"id", JStr("w1")}, KV{"clauses", JArr()}, KV{"weight", JInt(wt - 2)})
+		if wt < 3 {
+			first.Replace("weight", JInt(0))
+		}
+		second := JObj(KV{"id", JStr("w2")}, KV{"clauses", JArr()}, KV{"weight", JInt(r.Pick2([]int64{1, 5, 100000}))}, KV{"bucketBy", JStr("noSuchAttribute")})
+		if rk != "" {
+			first.Set("rolloutContextKind", JStr(rk))
+			second.Set("rolloutContextKind", JStr(rk))
+		}
+		rules = JArr(first, second)
+	}
 	outer := JObj(KV{"key", JStr("outer")}, KV{"included", JArr()}, KV{"excluded", JArr()}, KV{"salt", JStr(outerSalt)}, KV{"version", JInt(1)}, KV{"rules", rules})
 	flag := JObj(KV{"key", JStr("f0")}, KV{"on", JBool(true)}, KV{"prerequisites", JArr()}, KV{"targets", JArr()}, KV{"contextTargets", JArr()},
 		KV{"rules", JArr(JObj(KV{"id", JStr("r")}, KV{"variation", JInt(1)}, KV{"clauses", JArr(JObj(KV{"attribute", JStr("")}, KV{"op", JStr("segmentMatch")},
